@@ -61,6 +61,27 @@ def jobs(tier):
                        bound="%s 2x2, short/open/match on port 2, through, short on port 1 (column 1 short of equations); values symbolic; "
                              "linear kernels by assumed contract (any rank <= min(m,n), any determinant)" % t,
                        timeout=200, cbmc_flags=["--slice-formula"]))
+    usrcs = [x for x in ksrcs if x not in ("vnacommon_qr.c", "vnacommon_qrsolve2.c")] + \
+        ["vnacal_make_unknown_parameter.c", "vnacal_delete_parameter.c", "vnacal_new_set_iteration_limit.c"]
+    for t in (("VNACAL_T8",) if tier == "quick" else ("VNACAL_T8", "VNACAL_U8", "VNACAL_TE10")):
+        d = CUT + ["-DCAL_TYPE=%s" % t, "-DCAL_ROWS=2", "-DCAL_COLS=2", "-DKERNEL_CONTRACTS"]
+        J.append(V.Job("solve_too_few_unknown.%s_2x2" % t[7:], H, "h_solve_too_few_unknown", usrcs, defines=d, unwind=20, union_struct=True,
+                       kind="bounded", canary=(t == "VNACAL_T8"),
+                       functions=["vnacal_new_solve", "_vnacal_new_solve_internal", "_vnacal_new_solve_auto (count test)",
+                                  "_vnacal_new_solve_is_trl"],
+                       bound="%s 2x2, through + short@1 + open@1 + two unknown reflects on port 2 (one equation short); values symbolic; "
+                             "linear kernels by assumed contract" % t,
+                       timeout=300, cbmc_flags=["--slice-formula"]))
+    tsrcs = sorted(set(srcs + ["vnacal_make_unknown_parameter.c", "vnacal_delete_parameter.c"]))
+    for t in (("VNACAL_T8",) if tier == "quick" else ("VNACAL_T8", "VNACAL_U8", "VNACAL_TE10", "VNACAL_UE10")):
+        for v in (0, 1, 2):
+            J.append(V.Job("is_trl.%s_v%d" % (t[7:], v), H, "h_is_trl", tsrcs,
+                           defines=CUT + ["-DCAL_TYPE=%s" % t, "-DCAL_ROWS=2", "-DCAL_COLS=2", "-DTRL_VARIANT=%d" % v],
+                           unwind=20, union_struct=True, kind="bounded", canary=(v == 0 and t == "VNACAL_T8"),
+                           functions=["_vnacal_new_solve_is_trl", "classify_standard"],
+                           bound="%s 2x2, through + %s + line with two unknown parameters; measured values symbolic" %
+                                 (t, ("double reflect", "single reflect on port 2 (full M)", "single reflect on port 1 (1x1 M)")[v]),
+                           timeout=300))
     return J
 
 
